@@ -38,6 +38,10 @@ pub struct Scn {
     /// last arrival, so that only response futures are left alive
     #[serde(default)]
     pub owner_dropped: bool,
+    /// all callers go through the one handle, which is never cloned (what the worker of a
+    /// tower Buffer or `call_all` does)
+    #[serde(default)]
+    pub sole_handle: bool,
 }
 
 pub fn gen(rng: &mut Rng) -> Scn {
@@ -66,10 +70,22 @@ pub fn gen(rng: &mut Rng) -> Scn {
         callers,
         knobs: SchedKnobs::gen(rng, faulty, 60),
         owner_dropped: !two_services && rng.chance(1, 5),
+        sole_handle: false,
     }
 }
 
+pub fn gen_any(rng: &mut Rng) -> Scn {
+    let mut s = gen(rng);
+    if !s.owner_dropped && s.callers.iter().all(|c| c.key < 100) && rng.chance(1, 5) {
+        s.sole_handle = true;
+    }
+    s
+}
+
 pub fn valid(s: &Scn) -> bool {
+    if s.sole_handle && (s.owner_dropped || s.callers.iter().any(|c| c.key >= 100)) {
+        return false;
+    }
     s.callers.len() >= 1
         && s.callers.len() <= 12
         && s.callers.iter().all(|c| c.start_ms <= 300 && c.key % 100 >= 1 && c.key % 100 <= 4 && c.key / 100 <= 1 && c.beh.lat_ms <= 200 && c.beh.yields <= 4 && c.hold_ms <= 100 && c.drop_unpolled_after_ms.map(|d| d <= 50).unwrap_or(true))
@@ -102,13 +118,20 @@ pub fn run(s: &Scn, ctx: &mut RunCtx) -> RunOutput {
         let layer = CoalesceLayer::new(|r: &Req| CKey(r.key % 100));
         let base = layer.layer(SimInner::new(0));
         let base_b = layer.layer(SimInner::new(1));
-        let owner = std::rc::Rc::new(std::cell::RefCell::new(Some(base.clone())));
+        let sole = scn.sole_handle;
         let lazy = scn.owner_dropped;
+        let (owner, base, base_b) = if sole {
+            // the one and only handle: nothing is cloned, the sibling service does not exist
+            drop(base_b);
+            (std::rc::Rc::new(std::cell::RefCell::new(Some(base))), None, None)
+        } else {
+            (std::rc::Rc::new(std::cell::RefCell::new(Some(base.clone()))), Some(base), Some(base_b))
+        };
         let taken = std::rc::Rc::new(std::cell::Cell::new(0usize));
         let n_callers = scn.callers.len();
         let mut defs = vec![];
         for (i, c) in scn.callers.iter().enumerate() {
-            let mut early = if lazy { None } else { Some(if c.key / 100 == 1 { base_b.clone() } else { base.clone() }) };
+            let mut early = if lazy || sole { None } else { Some(if c.key / 100 == 1 { base_b.as_ref().unwrap().clone() } else { base.as_ref().unwrap().clone() }) };
             let owner = owner.clone();
             let taken = taken.clone();
             let req = Req { id: i as u32, key: c.key };
@@ -116,16 +139,24 @@ pub fn run(s: &Scn, ctx: &mut RunCtx) -> RunOutput {
             let drop_unpolled = c.drop_unpolled_after_ms;
             let make: Box<dyn FnOnce() -> LocalFut> = Box::new(move || {
                 Box::pin(async move {
-                    let mut svc = match early.take() {
-                        Some(s) => s,
-                        None => owner.borrow().as_ref().expect("owner handle alive at every arrival").clone(),
+                    let mut own = match early.take() {
+                        Some(s) => Some(s),
+                        None if sole => None,
+                        None => Some(owner.borrow().as_ref().expect("owner handle alive at every arrival").clone()),
                     };
-                    let r: Result<_, CoalesceError<SimErr>> = match svc.ready().await {
+                    let ready = match own.as_mut() {
+                        Some(s) => s.ready().await.map(|_| ()),
+                        None => std::future::poll_fn(|cx| owner.borrow_mut().as_mut().unwrap().poll_ready(cx)).await,
+                    };
+                    let r: Result<_, CoalesceError<SimErr>> = match ready {
                         Err(e) => Err(e),
-                        Ok(sv) => {
-                            let mut f = Box::pin(sv.call(req));
+                        Ok(()) => {
+                            let mut f = Box::pin(match own.as_mut() {
+                                Some(s) => s.call(req),
+                                None => owner.borrow_mut().as_mut().unwrap().call(req),
+                            });
                             if lazy {
-                                drop(svc);
+                                drop(own.take());
                                 taken.set(taken.get() + 1);
                                 if taken.get() == n_callers {
                                     // the last arrival: the owner goes away, only futures stay
@@ -164,6 +195,7 @@ pub fn run(s: &Scn, ctx: &mut RunCtx) -> RunOutput {
         }
         drop(base);
         drop(base_b);
+        drop(owner);
         defs
     };
     let mut step = |_k| {
@@ -309,13 +341,26 @@ impl Prop for C11 {
         "C11"
     }
     fn gen(&self, rng: &mut Rng, _t: Tier) -> Value {
-        serde_json::to_value(gen(rng)).unwrap()
+        if rng.chance(1, 8) {
+            // one run in eight drives the service from several threads (engine B)
+            return serde_json::to_value(super::svcthreads::gen_coalesce(rng)).unwrap();
+        }
+        serde_json::to_value(gen_any(rng)).unwrap()
     }
     fn valid(&self, v: &Value) -> bool {
+        if super::svcthreads::is_threads(v) {
+            return super::svcthreads::valid_json(v) && matches!(parse::<super::svcthreads::ScnT>(v).map(|s| s.kind), Some(super::svcthreads::Kind::Coalesce { .. }));
+        }
         parse::<Scn>(v).map(|s| valid(&s)).unwrap_or(false)
     }
     fn run(&self, v: &Value, ctx: &mut RunCtx) -> RunOutput {
+        if super::svcthreads::is_threads(v) {
+            return super::svcthreads::run_json(v, ctx, "C11");
+        }
         run(&parse::<Scn>(v).unwrap(), ctx)
+    }
+    fn engine(&self) -> &'static str {
+        "asim + tsim (shuttle)"
     }
     fn runs(&self, t: Tier) -> u64 {
         match t {
